@@ -11,7 +11,6 @@ from . import fst
 
 from .asttypes import (
     ASTS_LEAF_BLOCK,
-    ASTS_LEAF_FTSTR,
     AST,
     ExceptHandler,
     Match,
@@ -340,11 +339,7 @@ def _reparse_raw(self: fst.FST, code: Code | None, ln: int, col: int, end_ln: in
         ):  # first generalize a bit
             mode = base
 
-        if self is not root and self.parent.a.__class__ in ASTS_LEAF_FTSTR:  # reparsing a direct child of one of these alone is problematic because they may create or destroy self-documenting debug Constant nodes
-            self = self.parent
-
-        _reparse_raw_base(self, new_lines, ln, col, end_ln, end_col, root._lines[:],  # fallback to reparse all source
-                          None if self is root else root.child_path(self), True, mode)
+        _reparse_raw_base(root, new_lines, ln, col, end_ln, end_col, root._lines[:], None, True, mode)  # fallback to reparse all source, and take all of it because the change may have restructured anything above the node which contained it (`a + b * c` -> `a + b + c`, `f"{a}"` -> `f"{a=}"`)
 
     if len(new_lines) == 1:
         return ln, col + len(new_lines[0])
